@@ -156,6 +156,11 @@ bool DmxBuffer::Set(const string &data) {
 
 
 bool DmxBuffer::Set(const DmxBuffer &other) {
+  if (this == &other) {
+    // Nothing to copy. Set(m_data, m_length) would release our block first (if
+    // it is marked copy-on-write) and then read from it.
+    return m_data != NULL;
+  }
   return Set(other.m_data, other.m_length);
 }
 
